@@ -8,7 +8,10 @@ import subprocess
 import sys
 
 V = "/verif"
-EXTRA = {"C01-5": ["C02", "C18"], "C02-5": ["C11"], "C03-5": ["C07", "C08", "C09"], "C04-5": ["C15"], "C05-5": ["C16"], "C06-5": ["C07", "C18"], "C07-5": ["C06", "C18"], "C08-5": ["C10"],
+EXTRA = {"C01-6": ["C02", "C11"], "C02-6": ["C01", "C18"], "C03-6": ["C08", "C16"], "C04-6": ["C19", "C18"], "C05-6": ["C16"], "C06-6": ["C20"], "C07-6": ["C05", "C12"], "C08-6": ["C07", "C10"],
+         "C09-6": ["C20", "C08", "C10"], "C10-6": ["C08", "C13"], "C11-6": ["C20"], "C12-6": ["C11"], "C13-6": ["C08", "C10"], "C14-6": ["C18", "C15"], "C16-6": ["C03"], "C18-6": ["C15", "C19", "C04"],
+         "C19-6": ["C15", "C18"], "C20-6": ["C05"],
+         "C01-5": ["C02", "C18"], "C02-5": ["C11"], "C03-5": ["C07", "C08", "C09"], "C04-5": ["C15"], "C05-5": ["C16"], "C06-5": ["C07", "C18"], "C07-5": ["C06", "C18"], "C08-5": ["C10"],
          "C09-5": ["C03"], "C10-5": ["C08"], "C11-5": ["C03"], "C12-5": ["C06"], "C13-5": ["C16"], "C14-5": ["C01"], "C15-5": ["C04"], "C16-5": ["C05", "C13"], "C18-5": ["C14"], "C19-5": ["C18"], "C20-5": ["C08"],
          "C01-4": ["C15", "C14"], "C15-4": ["C14", "C01"], "C02-4": ["C04", "C01"], "C09-4": ["C02", "C10"], "C10-4": ["C09"], "C03-4": [], "C08-4": ["C10", "C20"], "C12-4": ["C13"], "C07-4": ["C06"],
          "C01-3": ["C02", "C14"], "C02-3": ["C01", "C14"], "C14-3": ["C02"], "C18-3": ["C14"], "C10-3": ["C08"], "C03-3": ["C02"], "C16-3": ["C06"], "C09-3": ["C10"],
